@@ -36,7 +36,7 @@ import collections as _collections
 import types as _types
 
 # `mp` / `cm`: mappings that are not dict subclasses (a `...` spread of them must still give keyword arguments)
-CTX = {"v": "val", "n": 3, "xs": [1, 2], "d": {"a": 1, "b": 2}, "s": "a b", "e": "", "t": True, "d2": {"b": 9, "c": 3}, "xs2": ["x"], "name": "N",
+CTX = {"nn": None, "v": "val", "n": 3, "xs": [1, 2], "d": {"a": 1, "b": 2}, "s": "a b", "e": "", "t": True, "d2": {"b": 9, "c": 3}, "xs2": ["x"], "name": "N",
        "mp": _types.MappingProxyType({"p": 1, "q": "z"}), "cm": _collections.ChainMap({"r": 2})}
 HOLDER: List[Any] = []
 
@@ -91,7 +91,9 @@ def gen_dict(r, depth: int) -> dict:
         if r.random() < 0.25:
             items.append({"t": "dspread", "of": r.choice([{"t": "leaf", "text": "d"}, {"t": "leaf", "text": "d2"}, {"t": "leaf", "text": "mp"}, gen_dict(r, depth + 2)])})
         else:
-            key = r.choice([{"t": "str", "body": r.choice(["k", "a", "b", "x y"])}, {"t": "leaf", "text": "name"}, {"t": "leaf", "text": "n"}])
+            key = r.choice([{"t": "str", "body": r.choice(["k", "a", "b", "x y"])}, {"t": "leaf", "text": "name"}, {"t": "leaf", "text": "n"},
+                            # falsy / None keys are keys like any other (seeded/C02-3)
+                            {"t": "leaf", "text": r.choice(["None", "nn", "0", "e", "True"])}])
             items.append({"t": "pair", "key": key, "value": gen_value(r, depth + 1)})
     return {"t": "dict", "items": items}
 
